@@ -17,6 +17,7 @@ worker() {
   while read id; do
     i=$((i+1)); [ $(( (i-1) % N )) -eq $((k-1)) ] || continue
     P=${id%%-*}
+    grep -q superseded_by_fix $ROOT/seeded/$id/meta.json 2>/dev/null && { echo "$id: superseded by a fix (skipped)"; continue; }
     git -C $W checkout -q -- . ; git -C $W clean -fdq
     if ! git -C $W apply $ROOT/seeded/$id/patch.diff 2>/dev/null; then echo "$id: patch does not apply"; continue; fi
     (cd $ROOT && VERIF_REPO=$W timeout 3600 ./check $P --tier quick > $ROOT/.work/par.$id.log 2>&1); E=$?
